@@ -761,7 +761,7 @@ fn judge(rep: &mut Report, sc: &Scenario, live: &Live, recs: &[Rec], point: &str
 fn hang_verdict(rep: &mut Report, what: &str) {
     let pid = std::process::id();
     let out = std::process::Command::new("gdb")
-        .args(["-p", &pid.to_string(), "-batch", "-ex", "set pagination off", "-ex", "thread apply all bt 25"])
+        .args(["-p", &pid.to_string(), "-batch", "-ex", "set pagination off", "-ex", "thread apply all bt 30"])
         .output();
     let text = match out {
         Ok(o) => String::from_utf8_lossy(&o.stdout).to_string(),
@@ -794,14 +794,46 @@ pub fn classify_hang(rep: &mut Report, gdb_text: &str, what: &str) {
             }
         }
     }
+    // The general form of an exhibited cycle: gdb stops all threads at one instant; if every thread of the process is
+    // either waiting to ACQUIRE a lock from inside pocket-db / mmap-append / LMDB (rwlock read or write, mutex, the
+    // LMDB writer mutex) or idle in the harness (join, sleep, park, waiting for gdb itself), then every holder of every
+    // awaited lock is itself among the waiters - nobody is left who could release anything. A thread doing anything
+    // else (running, in I/O) makes the picture inconclusive.
+    let mut lock_waiters: Vec<String> = vec![];
+    let mut others = 0usize;
+    let mut kinds = (false, false);
+    for th in gdb_text.split("\nThread ").skip(1) {
+        let frames: Vec<&str> = th.lines().filter(|l| l.starts_with('#')).collect();
+        let has = |pat: &str| frames.iter().any(|l| l.contains(pat));
+        let in_lib = |l: &&str| l.contains("pocket_db::") || l.contains("mmap_append::") || l.contains("heed::") || l.contains("mdb_");
+        let waiting = has("futex_wait") || has("__lll_lock_wait") || has("pthread_mutex_lock") || has("__futex_abstimed_wait");
+        let acquiring = has("RwLock::read") || has("RwLock::write") || has("read_contended") || has("write_contended") || has("Mutex::lock") || has("lock_contended") || has("mdb_txn_begin") || has("pthread_mutex_lock");
+        let idle = has("JoinHandle") || has("pthread_join") || has("__pthread_clockjoin") || has("thread::sleep") || has("nanosleep") || has("Thread::park") || has("thread::park") || has("hang_verdict") || has("Command::output") || has("Barrier::wait") || has("Condvar::wait");
+        if waiting && acquiring && frames.iter().any(in_lib) {
+            kinds.0 |= has("write_contended") || has("RwLock::write") || has("mdb_txn_begin");
+            kinds.1 |= has("read_contended") || has("RwLock::read");
+            let inner: Vec<String> = frames.iter().filter(|l| in_lib(l)).take(2).map(|l| l.split(" in ").last().unwrap_or(l).split(" (").next().unwrap_or("").trim_start_matches(|c: char| c == '#' || c.is_ascii_digit() || c == ' ').to_string()).collect();
+            lock_waiters.push(inner.join(" <- "));
+        } else if !idle {
+            others += 1;
+        }
+    }
+    lock_waiters.sort();
+    let distinct: BTreeSet<String> = lock_waiters.iter().cloned().collect();
     if writer_waiting && reader_recursive {
         rep.finding(
             "deadlock:resize-write-lock-vs-recursive-read-lock",
             &format!("{what}: no progress for 30 s; gdb shows a writer in MmapAppend::resize waiting for the map's write lock while a reader inside MmapAppend::deref waits in get_end for a second read lock behind it. {}", excerpt.join(" || ")),
             json!({"kind":"hang","what":what}),
         );
+    } else if others == 0 && lock_waiters.len() >= 2 && kinds.0 && kinds.1 {
+        rep.finding(
+            "deadlock:every-thread-waits-to-acquire-a-lock",
+            &format!("{what}: no progress for 30 s; gdb shows all {} non-idle threads waiting to acquire a lock inside the library (at least one for writing, one for reading) and no thread that could release one: {}", lock_waiters.len(), distinct.iter().cloned().collect::<Vec<_>>().join(" || ")),
+            json!({"kind":"hang","what":what}),
+        );
     } else {
-        rep.inconclusive.push(format!("{what}: no progress for 30 s but gdb exhibited no lock cycle (writer_waiting={writer_waiting}, reader_recursive={reader_recursive})"));
+        rep.inconclusive.push(format!("{what}: no progress for 30 s but gdb exhibited no lock cycle (writer_waiting={writer_waiting}, reader_recursive={reader_recursive}, threads waiting for a lock inside the library: {}, threads doing something else: {others})", lock_waiters.len()));
         let _ = rep.extra.insert("gdb_excerpt".into(), json!(gdb_text.lines().take(120).collect::<Vec<_>>()));
     }
 }
@@ -1450,9 +1482,10 @@ pub fn leg_growth(rep: &mut Report, args: &Args) {
             if hung {
                 // the writer stopped journaling: look at the child's stacks
                 let out = std::process::Command::new("gdb")
-                    .args(["-p", &ch.id().to_string(), "-batch", "-ex", "set pagination off", "-ex", "thread apply all bt 25"])
+                    .args(["-p", &ch.id().to_string(), "-batch", "-ex", "set pagination off", "-ex", "thread apply all bt 30"])
                     .output();
                 let text = out.map(|o| String::from_utf8_lossy(&o.stdout).to_string()).unwrap_or_default();
+                let _ = std::fs::write(workdir().join(format!("hang_{mode}_{run}.gdb.txt")), &text);
                 let _ = ch.kill();
                 let _ = ch.wait();
                 classify_hang(rep, &text, &format!("growth scenario {mode} run {run} (stores journaled: {stores_done}, moves: {moves})"));
